@@ -21,7 +21,7 @@ def run(rep, tier, seed):
     quick = tier == "quick"
     for system in ("system-w", "lex_inf"):
         for weakly in (False, True):
-            cfgs = [(2, 2, "L1"), (3, 3, "L2")] if quick else [(2, 2, "L1"), (2, 3, "L1"), (3, 3, "L2"), (3, 4, "L2")]
+            cfgs = [(2, 2, "L1"), (3, 3, "L2")] if quick else ([(2, 2, "L1"), (2, 3, "L1"), (3, 3, "L2")] if not weakly else [(2, 2, "L1"), (3, 3, "L2")])
             for N, M, lvl in cfgs:
                 ops_ = [dict(system=system, pm="rc2", weakly=weakly, level=lvl), dict(system=system, pm="z3", weakly=weakly)]
                 if lvl == "L1":
